@@ -44,6 +44,10 @@ def classify(e, group):
     if e["op"] == "edit":
         return "nego|edit|%s|%s|%s" % (e["msg"], e["kind"], "panic" if e["res"] == "panic" else "accepted"), \
             "a %s whose cipher list was edited in transit (%s) was not refused" % (e["msg"], e["kind"])
+    if e["op"] == "future":
+        what = "panic" if e["res"] == "panic" else ("handshake-payload-unsealed" if e.get("clear") and not (e["ap"] and e["bp"]) else "outcome")
+        return "nego|future-peer|%s|%s" % (e["variant"], what), \
+            "a genuine ping that also advertises unknown ciphers (a later version) changes the negotiation: %s" % what
     if e["op"] != "nego":
         return "nego|%s|unexplained" % e["op"], "event not explained by the specification"
     cls = input_class(e)
